@@ -5,10 +5,11 @@ extern int ll2c_exc_pending;
 void ll2c_unreachable(void);
 void ll2c_trap(void);
 void ll2c_bad_indirect_call(void);
+void ll2c_fail(const char* msg);
 int32_t ll2c_eh_typeid_for(char*);
-#endif
 #ifdef __CPROVER__
 #define LL2C_ASSUME(x) __CPROVER_assume(x)
 #else
-#define LL2C_ASSUME(x) do{ if(!(x)) abort(); }while(0)
+#define LL2C_ASSUME(x) do { if (!(x)) abort(); } while (0)
+#endif
 #endif
